@@ -49,6 +49,10 @@ class Actor:
 
     def start(self) -> None:
         ctx = self.ctx
+        if self.task is not None and not self.task.done():
+            # one instance at a time: op records are keyed by (actor, step), two live instances would be indistinguishable
+            ctx.world.rec("actor_start_ignored", actor=self.aid)
+            return
         loop = ctx.world.loop
         coro = self._run()
         eager = self.spec.get("eager", ctx.world.knobs.get("eager", True))
@@ -214,7 +218,25 @@ def make_client(ctx: Ctx, ccfg: dict) -> Any:
         zc = FakeAsyncZeroconf(zc=FakeZeroconf("app"))
     ctx.extra["app_zc"] = zc
     addrs = ccfg.get("addresses", ["10.0.0.5"])
-    cli = L.client.APIClient(
+    other = None
+    if ccfg.get("ctor_loop") == "other":
+        # the application builds its client in synchronous set-up code, before the loop that will run the sessions exists
+        # (client = APIClient(...); asyncio.run(main(client))): another, never running loop is current in the constructor
+        other = asyncio.new_event_loop()
+        ctx.extra.setdefault("other_loops", []).append(other)
+        asyncio.set_event_loop(other)
+    try:
+        cli = _construct_client(L, ccfg, addrs, zc)
+    finally:
+        if other is not None:
+            asyncio.set_event_loop(ctx.world.loop)
+    if ctx.world.knobs.get("debug"):
+        cli.set_debug(True)
+    return cli
+
+
+def _construct_client(L: Any, ccfg: dict, addrs: list, zc: Any) -> Any:
+    return L.client.APIClient(
         addrs[0],
         ccfg.get("port", 6053),
         ccfg.get("password"),
@@ -225,9 +247,6 @@ def make_client(ctx: Ctx, ccfg: dict) -> Any:
         expected_name=ccfg.get("expected_name"),
         addresses=addrs if len(addrs) > 1 or ccfg.get("use_addresses") else None,
     )
-    if ctx.world.knobs.get("debug"):
-        cli.set_debug(True)
-    return cli
 
 
 def _arm(ctx: Ctx, trig: dict, fn: Callable[[], None]) -> None:
@@ -325,6 +344,14 @@ def _deliver_mdns(ctx: Ctx, ev: dict) -> None:
     for r in ev.get("records", []):
         if r["type"] == "PTR":
             rec = zc_real.DNSPointer(r.get("name", "_esphomelib._tcp.local."), zc_real.const._TYPE_PTR, zc_real.const._CLASS_IN, 4500, r["alias"])
+        elif r["type"] == "TXT":
+            rec = zc_real.DNSText(r["name"], zc_real.const._TYPE_TXT, zc_real.const._CLASS_IN, 4500, b"\x0bversion=1.0")
+        elif r["type"] == "SRV":
+            rec = zc_real.DNSService(r["name"], zc_real.const._TYPE_SRV, zc_real.const._CLASS_IN, 120, 0, 0, 6053, r.get("server", "other.local."))
+        elif r["type"] == "AAAA":
+            import socket as _s
+
+            rec = zc_real.DNSAddress(r["name"], zc_real.const._TYPE_AAAA, zc_real.const._CLASS_IN, 120, _s.inet_pton(_s.AF_INET6, r.get("addr", "fd00::5")))
         else:
             import socket as _s
 
@@ -525,6 +552,8 @@ def run_scenario(scn: dict) -> Run:
 def _teardown(ctx: Ctx) -> None:
     w = ctx.world
     loop = w.loop
+    for other in ctx.extra.get("other_loops", []):
+        other.close()
     w.rec = lambda *a, **k: (0, 0, 0.0, "", {})  # type: ignore[method-assign]
     w.watchers.clear()
     w.agenda.clear()
@@ -1007,6 +1036,7 @@ async def _fh_write(ctx: Ctx, a: Actor, st: dict) -> Any:
     for p in st["packets"]:
         payload = gen_bytes(p["gen"][0], p["gen"][1]) if "gen" in p else bytes.fromhex(p.get("payload_hex", ""))
         packets.append((p["type"], payload))
+    packets = packets * int(st.get("repeat", 1))
     fh.write_packets(packets, bool(ctx.world.knobs.get("debug")))
 
 
